@@ -25,7 +25,7 @@ func IPAddressToString(ipAddr ngapType.TransportLayerAddress) (ipv4Addr, ipv6Add
 	case 160: // ipv4 + ipv6, and ipv4 is contained in the first 32 bits
 		netIPv4 := net.IPv4(ip.Bytes[0], ip.Bytes[1], ip.Bytes[2], ip.Bytes[3])
 		netIPv6 := net.IP{}
-		for i := range ip.Bytes {
+		for i := 0; i < 16; i++ {
 			netIPv6 = append(netIPv6, ip.Bytes[i+4])
 		}
 		ipv4Addr = netIPv4.String()
